@@ -59,7 +59,7 @@ REQUIRED = {
     "second": 0.3, "fourth": 0.3, "form-full": 0.08, "form-2d": 0.05, "form-diag": 0.05, "form-iso": 0.05,
     "rot-generic": 0.1, "rot-quarter-turns": 0.05, "multi-cell": 0.5, "restrict-unsorted": 0.1,
     "restrict-sorted": 0.1, "extra-fields": 0.1, "no-extra-fields": 0.1,
-    "scaled-small": 0.15, "scaled-large": 0.08, "scaled-unit": 0.15, "anisotropic": 0.05,
+    "fourth-history-other-fields": 0.1, "fourth-history": 0.08, "scaled-small": 0.15, "scaled-large": 0.08, "scaled-unit": 0.15, "anisotropic": 0.05,
 }
 
 # ----------------------------------------------------------------------------- strategies
@@ -112,7 +112,12 @@ def _fourth(draw):
         extra.append({"A": [draw(st.integers(-2, 2)) for _ in range(6)],
                       "B": [draw(st.integers(-2, 2)) for _ in range(6)],
                       "field": [draw(st.floats(-2.0, 2.0, allow_nan=False, allow_subnormal=False)) for _ in range(nc)]})
+    idx1 = _subset(draw, nc)
+    if draw(st.integers(0, 2)) == 0:
+        idx1 = draw(st.permutations(list(range(nc))))  # a reordering of all cells
+    idx2 = _subset(draw, len(idx1))
     return {"kind": "fourth", "mu": mu, "lmbda": lm, "extra": extra, "scale_exp": draw(_scale_exp),
+            "hist": {"idx1": list(idx1), "idx2": list(idx2)},
             "restrict": _subset(draw, nc),
             "mut": [draw(st.integers(0, 8)), draw(st.integers(0, 8)), draw(st.integers(0, nc - 1))]}
 
@@ -305,8 +310,8 @@ def _check_fourth(s):
     other = {}
     for n, e in enumerate(s["extra"]):
         other[f"field_{n}"] = (_extra_mat(e), np.array(e["field"], dtype=float) * factor)
-    t = pp.FourthOrderTensor(mu.copy(), lm.copy(), other_fields={k: (m.copy(), f.copy()) for k, (m, f) in other.items()}
-                             if other else None)
+    user_fields = {k: (m.copy(), f.copy()) for k, (m, f) in other.items()} if other else None  # the caller's dict
+    t = pp.FourthOrderTensor(mu.copy(), lm.copy(), other_fields=user_fields)
 
     labels = ["fourth", "extra-fields" if other else "no-extra-fields"] + _scale_labels(sexp)
     if nc >= 2:
@@ -340,4 +345,42 @@ def _check_fourth(s):
     require(list(t.constitutive_parameters) == fields, "fourth-parameters", f"{t.constitutive_parameters}")
     _check_restrict(t, s["restrict"], "fourth", fields)
     _check_copy_independent(t, s["mut"], "fourth", fields)
+
+    # ---- operation history: restrict -> copy -> restrict, then the caller edits its dict; every intermediate tensor
+    # is compared with the expected values / fields of its own cells
+    hist = s.get("hist")
+    if hist:
+        labels.append("fourth-history-other-fields" if other else "fourth-history")
+        full = {"mu": mu, "lmbda": lm}
+        full.update({k: f for k, (m, f) in other.items()})
+
+        def verify(obj, cells, what):
+            cells = np.asarray(cells, dtype=int)
+            require(type(obj) is type(t), "hist-type", f"{what}: {type(obj)}")
+            require(list(obj.constitutive_parameters) == fields, "hist-parameters", f"{what}: {obj.constitutive_parameters}")
+            require_close(obj.values, exp[:, :, cells], "hist-values", rtol=1e-12, atol=0.0, scale=max(scale, 1e-300),
+                          what=f"{what}: values")
+            for name in fields:
+                require_equal(getattr(obj, name), full[name][cells], "hist-field", f"{what}: field {name}")
+
+        i1 = np.array(hist["idx1"], dtype=int)
+        i2 = np.array(hist["idx2"], dtype=int)
+        r1 = t.restrict_to_cells(i1)
+        verify(r1, i1, f"restrict_to_cells({i1.tolist()})")
+        c1 = r1.copy()
+        verify(c1, i1, f"restrict_to_cells({i1.tolist()}).copy()")
+        r2 = r1.restrict_to_cells(i2)
+        verify(r2, i1[i2], f"restrict_to_cells({i1.tolist()}).restrict_to_cells({i2.tolist()})")
+        r3 = c1.restrict_to_cells(i2)
+        verify(r3, i1[i2], "restrict -> copy -> restrict")
+        verify(r1, i1, "first restriction after the later operations")
+        if user_fields is not None:
+            # the caller goes on using its dict: entries rebound, a key added (arrays are not touched)
+            for k in list(user_fields):
+                m_, f_ = user_fields[k]
+                user_fields[k] = (np.zeros_like(m_), np.full_like(f_, 99.0))
+            user_fields["unrelated"] = (np.eye(9), np.ones(nc))
+        c2 = t.copy()
+        verify(c2, np.arange(nc), "copy() after the caller edited the dict it had passed to the constructor")
+        verify(t, np.arange(nc), "original tensor at the end of the history")
     return {"labels": labels, "nontrivial": nc >= 2}
